@@ -2,10 +2,10 @@
 # tools/try_benign.sh [batch ...]   sweep every registered property over the stored behaviour-preserving refactorings (benign/<batch>/
 # combined.diff, or each refactor_k.diff when there is no combined patch) on the dev worktree; every line printed is a FALSE ALARM.
 cd /verif
-for b in ${@:-$(ls benign)}; do
+for b in ${@:-$(ls -d benign/*/ | xargs -n1 basename)}; do
   if [ -f benign/$b/combined.diff ]; then
-    echo "== $b combined"; bash tools/try_dev.sh benign/$b/combined.diff ALL
+    echo "== $b combined"; bash tools/try_dev.sh /verif/benign/$b/combined.diff ALL
   else
-    for f in benign/$b/refactor_*.diff; do echo "== $b $(basename $f)"; bash tools/try_dev.sh $f ALL; done
+    for f in /verif/benign/$b/refactor_*.diff; do echo "== $b $(basename $f)"; bash tools/try_dev.sh $f ALL; done
   fi
 done
